@@ -456,9 +456,17 @@ namespace BitSerializer::Convert::Detail
 
 		// Based on Howard Hinnant's algorithm
 		static_assert(sizeof(int) >= 4, "This algorithm has not been ported to a 16 bit integers");
-		auto const z = days + 719468ll;
-		auto const era = (z >= 0 ? z : z - 146096) / 146097;
-		auto const doe = static_cast<unsigned>(z - era * 146097);				// [0, 146096]
+		// z = days + 719468 is not formed (it overflows for the last 719468 days of time_point<days, int64_t>):
+		// era and day of era of `days` first, then the shift 719468 = 4 * 146097 + 135080 applied to the day of era
+		long long era = static_cast<long long>(days / 146097);
+		long long shiftedDoe = static_cast<long long>(days % 146097);
+		if (shiftedDoe < 0) {
+			shiftedDoe += 146097;
+			--era;
+		}
+		shiftedDoe += 719468;												// [719468, 865564]
+		era += shiftedDoe / 146097;											// + 4 or + 5
+		auto const doe = static_cast<unsigned>(shiftedDoe % 146097);			// [0, 146096]
 		auto const yoe = (doe - doe / 1460 + doe / 36524 - doe / 146096) / 365;	// [0, 399]
 		auto const y = yoe + era * 400;
 		auto const doy = doe - (365 * yoe + yoe / 4 - yoe / 100);				// [0, 365]
@@ -507,16 +515,30 @@ namespace BitSerializer::Convert::Detail
 		auto const doy = (153 * (m > 2 ? m - 3 : m + 9) + 2) / 5 + d - 1;	// [0, 365]
 		auto const doe = yoe * 365 + yoe / 4 - yoe / 100 + doy;				// [0, 146096]
 
-		if (static_cast<int64_t>(era) > std::numeric_limits<int64_t>::max() / 146097ll ||
-			static_cast<int64_t>(era) < std::numeric_limits<int64_t>::min() / 146097ll)
+		// days = era * 146097 + doe - 719468, computed without leaving int64_t wherever the result is representable:
+		// 719468 = 5 * 146097 - 11017, so days = (era - 5) * 146097 + (doe + 11017) with a non-negative second term
+		constexpr int64_t daysPerEra = 146097;
+		const int64_t shiftedEra = static_cast<int64_t>(era) - 5;
+		const int64_t shiftedDoe = static_cast<int64_t>(doe) + 11017;			// [11017, 157113]
+		int64_t days;
+		if (shiftedEra >= 0)
 		{
-			throw std::out_of_range("Target duration is not enough");
+			if (shiftedEra > (std::numeric_limits<int64_t>::max() - shiftedDoe) / daysPerEra) {
+				throw std::out_of_range("Target duration is not enough");
+			}
+			days = shiftedEra * daysPerEra + shiftedDoe;
 		}
-		const int64_t dayInEra = static_cast<int>(doe) - 719468;
-		if (dayInEra < 0 && era * 146097ll < std::numeric_limits<int64_t>::min() - dayInEra) {
-			throw std::out_of_range("Target duration is not enough");
+		else
+		{
+			// One era up, so that the product is not below the result: (shiftedEra + 1) * 146097 + (shiftedDoe - 146097)
+			const int64_t upEra = shiftedEra + 1;								// <= 0
+			const int64_t downDoe = shiftedDoe - daysPerEra;						// [-135080, 11016]
+			// Division truncates towards zero, which is the ceiling for the negative dividend
+			if (upEra < (std::numeric_limits<int64_t>::min() - (downDoe < 0 ? downDoe : 0)) / daysPerEra) {
+				throw std::out_of_range("Target duration is not enough");
+			}
+			days = upEra * daysPerEra + downDoe;
 		}
-		const int64_t days = era * 146097ll + dayInEra;
 		const auto time = static_cast<long long>(utc.Hour) * 3600 + static_cast<long long>(utc.Min) * 60 + utc.Sec;
 
 		std::chrono::time_point<TClock, TDuration> tp;
